@@ -805,13 +805,19 @@ class ServiceBrowser(_ServiceBrowserBase, threading.Thread):
         assert self.zc.loop is not None
         self.queue.put(None)
         self.zc.loop.call_soon_threadsafe(self._async_cancel)
+        if threading.current_thread() is self:
+            # Cancelled from one of our own callbacks (for example a listener
+            # that calls Zeroconf.close()): a thread cannot join itself.
+            # run() returns as soon as the callback does.
+            self.done = True
+            return
         self.join()
 
     def run(self) -> None:
         """Run the browser thread."""
         while True:
             event = self.queue.get()
-            if event is None:
+            if event is None or self.done:
                 return
             self._fire_service_state_changed_event(event)
 
